@@ -32,6 +32,18 @@ m("brute_force_steps_iter_off_by_one", "src/arrival/mod.rs",
   ".map(|((_, _), (d2, _))| Duration::from(d2)),",
   ".map(|((d1, _), (_, _))| Duration::from(d1)),",
   ["C03", "C01", "C12"], note="the default steps_iter reports every step one tick early (only user-defined models and ApproximatedPoisson use it)")
+m("rbf_job_cost_iter_one_fewer", "src/demand/rbf.rs",
+  "                .take(self.arrival_bound.number_arrivals(delta)),",
+  "                .take(self.arrival_bound.number_arrivals(delta).saturating_sub((delta > Duration::from(40)) as usize)),",
+  ["C01", "C02", "C03"], note="RBF::job_cost_iter drops one job for long intervals: only visible through the RequestBound trait's default service_needed (user-defined wrappers) or service_needed_by_n_jobs")
+m("request_bound_default_service_needed_skips_first", "src/demand/mod.rs",
+  "        self.job_cost_iter(delta).sum()",
+  "        self.job_cost_iter(delta).skip((delta > Duration::from(25)) as usize).sum()",
+  ["C01", "C02", "C03"], note="the trait's DEFAULT service_needed (not used by any library implementor's hot path) loses a job for long intervals")
+m("job_cost_model_default_least_wcet_one_short", "src/wcet/mod.rs",
+  "        self.job_cost_iter()\n            .take(n)\n            .min()",
+  "        self.job_cost_iter()\n            .take(n.saturating_sub((n > 3) as usize))\n            .min()",
+  ["C14"], note="the trait's DEFAULT least_wcet (every library model overrides it) ignores the n-th job")
 # ---- fixed-priority / FIFO / fixed point ---------------------------------------------------
 m("fp_p_tua_demand_open_interval", "src/fixed_priority/fully_preemptive.rs",
   "let tua_demand = tua.service_needed(A.closed_since_time_zero());",
